@@ -26,6 +26,8 @@ var checks = map[string]entry{
 	"C06": {"exploration", mon.CheckC06},
 	"C07": {"exploration", mon.CheckC07},
 	"C08": {"exploration", mon.CheckC08},
+	"C15": {"exploration", mon.CheckC15},
+	"C16": {"exploration", mon.CheckC16},
 	"C18": {"exploration", mon.CheckC18},
 	"C19": {"exploration", mon.CheckC19},
 	"C20": {"exploration", mon.CheckC20},
@@ -51,6 +53,11 @@ func main() {
 	if !ok {
 		fmt.Fprintf(os.Stderr, "unknown property %s\n", prop)
 		os.Exit(2)
+	}
+	// the library prints comparator diagnostics with fmt.Printf; keep stdout for verdict lines only
+	if devnull, err := os.OpenFile(os.DevNull, os.O_WRONLY, 0); err == nil {
+		evid.Out = os.Stdout
+		os.Stdout = devnull
 	}
 	hx.InitIO()
 	run := evid.NewRun(prop, tier, seed, c.level)
